@@ -527,8 +527,12 @@ def run_source(task):
     except Exception as e:
         st['reencodable'] = False
         res['not_reencodable'] = type(e).__name__
-    if render_hash(st, m) != before:
-        raise core.MachineryError('rendering/encoding the source changed it: %r' % (src,))
+    if render_hash(st, m) != before or m.template_data.value.decoded_values_all_subsets != rows0:
+        # not a subset() call, but the same statement: rendering a message and encoding the rendering leaves the message alone
+        res['problems'].append({'kind': 'source-modified', 'I': [], 'extra': {'by': 'reencode-source'},
+                                'text': 'rendering the source message (flat JSON) and encoding the rendering changed the source message'})
+        rows0 = copy.deepcopy(m.template_data.value.decoded_values_all_subsets)
+        before = render_hash(st, m)
     only_hist = task.get('only_history')
     if 'only' in task:
         colls = [('replay', task['only'])]
